@@ -17,6 +17,8 @@ let deb822_parse (fs : string list) : string =
       Printf.sprintf "text=%s|nerr=%d|depth=%d|paras=%s" (hx (text t)) (int_of_nat n)
         (int_of_nat (depth t)) (doc_items_s (Deb822Parse.doc_items t))) (Deb822Parse.from_str_relaxed s) in
   let strict = res_str (fun t -> "OK:" ^ hx (text t) ^ ":" ^ doc_items_s (Deb822Parse.doc_items t)) (Deb822Parse.from_str s) in
-  Printf.sprintf "lex=%s|%s|strict=%s" lx rel strict
+  let rd = res_str (fun t -> "OK:" ^ hx (text t)) (Deb822Parse.read s) in
+  let rdr = res_str (fun (t, n) -> Printf.sprintf "%s:%d" (hx (text t)) (int_of_nat n)) (Deb822Parse.read_relaxed s) in
+  Printf.sprintf "lex=%s|%s|strict=%s|read=%s|readr=%s" lx rel strict rd rdr
 
 let () = register "deb822-parse" deb822_parse
